@@ -5,7 +5,10 @@
   size/padding and routing blocks: `& | >> << % //`, unary minus, `!=`, text as lists of code points (constants,
   `==`/`!=`, `[:n]`, `[n:]`, `[i]`, `[::-1]`, `startswith`, `"{0:0Nb}".format`, `int()`, `bool()`, literal str→str
   dict lookup, `os.path.join(x, "")`), `in` on literal int tuples, `int(np.prod(shape))`, `True`/`False`,
-  `x[a:b]`, `numpy.frombuffer(four bytes, ">u4")[0]`.  `harness/py2lean.py` translates the
+  `x[a:b]`, `numpy.frombuffer(four bytes, ">u4")[0]`; in a third round for quoting and the DMR dimension readers:
+  `str.replace`, text `+`, `str.find(p, n)`, `for x in <list value>` (total: a fold over the items, no `break`),
+  `x.append(e)` / `t += (e,)`, `[]` / `()`, XML elements as attribute dicts (`el.get(k)`), dicts str → int (`d[k]`).
+  `harness/py2lean.py` translates the
   *source text* of the chosen function bodies into `Stmt` values (pure syntax → syntax); the semantics below is the
   trusted reading of that fragment.  Theorems in Props/ relate the interpreted source to the hand-written model.
 -/
@@ -18,6 +21,11 @@ inductive Val where
   | slice (start stop step : Option Int)     -- slice objects with int-or-None fields
   | ilist (l : List Int)                     -- a list / tuple of ints (`tokens`, `var.shape`), bytes as ints
   | str (cs : List Nat)                      -- text as a list of code points
+  -- third round (loops over lists of records)
+  | slist (l : List (List Nat))              -- a non-empty list of strings (the empty list is `ilist []`)
+  | elem (attrs : List (List Nat × List Nat))            -- an XML element, as far as `.get(key)` goes
+  | elems (l : List (List (List Nat × List Nat)))        -- a list of XML elements (`findall`)
+  | sidict (d : List (List Nat × Int))       -- a dict str → int (unique keys)
 deriving DecidableEq, Repr, Inhabited
 
 inductive Err where
@@ -60,6 +68,13 @@ inductive Expr where
   | boolc (b : Bool)                          -- `True` / `False`
   | slice2 (e a b : Expr)                     -- `e[a:b]` with computed non-negative bounds
   | beU32 (e : Expr)                          -- `numpy.frombuffer(e, dtype=">u4")[0]` of exactly four bytes
+  -- third round (text methods)
+  | replace (e pat rep : Expr)                -- `e.replace(pat, rep)` (non-empty pattern)
+  | concat (a b : Expr)                       -- `a + b` where one side is known to be text
+  | findFrom (e pat : Expr) (start : Nat)     -- `e.find(pat, start)` (non-empty pattern)
+  | getAttr (e k : Expr)                      -- `e.get(k)` of an XML element: the attribute or None
+  | subscr (d k : Expr)                       -- `d[k]` of a dict str → int (KeyError when absent)
+  | emptyList                                 -- `[]` / `()`
 deriving Repr, Inhabited
 
 inductive Stmt where
@@ -69,6 +84,8 @@ inductive Stmt where
   | augAdd (x : String) (e : Expr)
   | ite (c : Expr) (t e : Stmt)
   | raise (cls : String)
+  | forIn (x : String) (e : Expr) (body : Stmt)   -- `for x in e: body` over a list value (no break)
+  | append (x : String) (e : Expr)                -- `x.append(e)` / `x += (e,)`
 deriving Repr, Inhabited
 
 abbrev Env := List (String × Val)
@@ -88,6 +105,10 @@ def truthy : Val → Bool
   | .slice _ _ _ => true
   | .ilist l => !l.isEmpty
   | .str cs => !cs.isEmpty
+  | .slist l => !l.isEmpty
+  | .elem _ => true            -- (ElementTree's own truth test, "has children", is not modelled; never used)
+  | .elems l => !l.isEmpty
+  | .sidict d => !d.isEmpty
 
 def asInt : Val → Except Err Int
   | .int i => .ok i
@@ -170,6 +191,52 @@ def beU32 : List Int → Except Err Int
       .ok (((b0 * 256 + b1) * 256 + b2) * 256 + b3)
     else .error .unsupported
   | _ => .error .unsupported
+
+/-- `s.replace(pat, rep)` for a non-empty `pat`: leftmost, non-overlapping occurrences.  `skip` counts the
+    characters of a matched occurrence that are still to be passed over. -/
+def replaceGo (pat rep : List Nat) : Nat → List Nat → List Nat
+  | _, [] => []
+  | skip + 1, _ :: t => replaceGo pat rep skip t
+  | 0, x :: t =>
+    if pat.isPrefixOf (x :: t) then rep ++ replaceGo pat rep (pat.length - 1) t else x :: replaceGo pat rep 0 t
+
+/-- `str.replace`; the empty pattern (Python inserts `rep` between all characters) is not covered -/
+def strReplace (s pat rep : List Nat) : Except Err (List Nat) :=
+  if pat.isEmpty then .error .unsupported else .ok (replaceGo pat rep 0 s)
+
+/-- index of the first occurrence of the non-empty `pat` in `s` at or after position `i` (counted from `i`), else `none` -/
+def findGo (pat : List Nat) : Nat → List Nat → Option Nat
+  | _, [] => none
+  | i, x :: t => if pat.isPrefixOf (x :: t) then some i else findGo pat (i + 1) t
+
+/-- `s.find(pat, start)` with a literal `start ≥ 0`: the index of the first occurrence at or after `start`, else -1 -/
+def strFind (s pat : List Nat) (start : Nat) : Except Err Int :=
+  if pat.isEmpty then .error .unsupported else
+    match findGo pat start (s.drop start) with
+    | some i => .ok (i : Int)
+    | none => .ok (-1)
+
+/-- the values a `for` statement iterates over -/
+def iterItems : Val → Except Err (List Val)
+  | .ilist l => .ok (l.map .int)
+  | .slist l => .ok (l.map .str)
+  | .elems l => .ok (l.map .elem)
+  | _ => .error .typeError
+
+/-- `l.append(v)` / `t += (v,)`; lists are homogeneous (ints or strings), the empty list is `ilist []` -/
+def appendVal : Val → Val → Except Err Val
+  | .ilist [], .str s => .ok (.slist [s])
+  | .ilist l, .int i => .ok (.ilist (l ++ [i]))
+  | .slist l, .str s => .ok (.slist (l ++ [s]))
+  | _, _ => .error .unsupported
+
+def assocStr : List (List Nat × List Nat) → List Nat → Val
+  | [], _ => .none
+  | (k, v) :: t, x => if k = x then .str v else assocStr t x
+
+def assocInt : List (List Nat × Int) → List Nat → Except Err Val
+  | [], _ => .error .keyError
+  | (k, v) :: t, x => if k = x then .ok (.int v) else assocInt t x
 
 def prodInts : List Int → Int
   | [] => 1
@@ -309,6 +376,27 @@ def eval (env : Env) : Expr → Except Err Val
       match (← eval env e) with
       | .ilist l => .ok (.int (← beU32 l))
       | _ => .error .typeError
+  | .replace e pat rep => do
+      match (← eval env e), (← eval env pat), (← eval env rep) with
+      | .str s, .str p, .str r => .ok (.str (← strReplace s p r))
+      | _, _, _ => .error .unsupported
+  | .concat a b => do
+      match (← eval env a), (← eval env b) with
+      | .str x, .str y => .ok (.str (x ++ y))
+      | _, _ => .error .unsupported
+  | .findFrom e pat start => do
+      match (← eval env e), (← eval env pat) with
+      | .str s, .str p => .ok (.int (← strFind s p start))
+      | _, _ => .error .unsupported
+  | .getAttr e k => do
+      match (← eval env e), (← eval env k) with
+      | .elem attrs, .str key => .ok (assocStr attrs key)
+      | _, _ => .error .unsupported
+  | .subscr d k => do
+      match (← eval env d), (← eval env k) with
+      | .sidict tbl, .str key => assocInt tbl key
+      | _, _ => .error .unsupported
+  | .emptyList => .ok (.ilist [])
 
 def exec (env : Env) : Stmt → Except Err Env
   | .skip => .ok env
@@ -321,6 +409,13 @@ def exec (env : Env) : Stmt → Except Err Env
   | .ite c t e => do
       if truthy (← eval env c) then exec env t else exec env e
   | .raise cls => .error (.raised cls)
+  | .forIn x e body => do
+      let items ← iterItems (← eval env e)
+      items.foldlM (fun env v => exec (setVar env x v) body) env
+  | .append x e => do
+      let l ← lookup env x
+      let v ← eval env e
+      .ok (setVar env x (← appendVal l v))
 
 /-- the value bound to `x` after running `body` from `env` -/
 def runItem (env : Env) (body : Stmt) (x : String) : Except Err Val :=
